@@ -348,7 +348,11 @@ def fam_health(tier, seed):
             insts.append(inst("B", health_n=rng.choice([-1, 0, 2]), health="", health_rest=rng.choice(["h", "hu", "u"])))
             steps.append({"at": H // 2, "do": "start", "i": "B"})
         end = (len(sq) + 10) * H + int(3 * ratio * H) + 4 * S
-        out.append(scn("health-%s-N%d-%s-%d" % (sq[:20], N, rest, k), seed * 1000 + k, H, ratio, insts, steps, "health", end))
+        rules = []
+        if rng.random() < 0.4:   # a refresh failing transiently on a healthy tick, in between unhealthy ones
+            rules.append({"match": {"i": "A", "kind": "update", "src": "hb"}, "fault": rng.choice(["fail:timeout", "fail:noresponders", "fail:other"]),
+                          "from_nth": rng.randrange(1, 4), "count": rng.choice([1, 1, 2])})
+        out.append(scn("health-%s-N%d-%s-%d" % (sq[:20], N, rest, k), seed * 1000 + k, H, ratio, insts, steps, "health", end, rules=rules))
     return out
 
 
@@ -513,6 +517,20 @@ def fam_regress(tier, seed):
             {"at": int(2.5 * H), "do": "stopctx", "i": "A", "del": True},
             {"when": {"i": "B", "kind": "create", "src": "acq", "nth": 6, "phase": "post"}, "do": "out_del",
              "then": [{"do": "sleep", "us": 900 * MS}]}], "regress", 9 * H + 2 * S, lat=20 * MS, watch=30 * MS))
+        # 1b. the same with the delayed Create applied only after the instance leads and its record vanished
+        out.append(scn("reg-late-create-while-leading-%d" % k, seed * 1000 + k, H, ratio, [inst("A"), inst("B")], [
+            {"at": 0, "do": "start", "i": "A"}, {"at": H // 10, "do": "start", "i": "B"},
+            {"at": int(2.5 * H), "do": "stopctx", "i": "A", "del": True},
+            {"when": {"i": "B", "kind": "create", "src": "acq", "nth": 6, "phase": "pre"}, "do": "noop",
+             "then": [{"do": "sleep", "us": 900 * MS}, {"do": "out_del"}, {"do": "sleep", "us": 5 * MS}], "release": "now"}],
+            "regress", 9 * H + 2 * S, lat=20 * MS, watch=30 * MS))
+        # 7. three priorities: M's takeover read is answered only after H has taken over and M's watcher has seen it
+        out.append(scn("reg-takeover-read-across-takeover-%d" % k, seed * 1000 + k, H, ratio,
+                       [inst("A", prio=1), inst("B", prio=2, takeover=True), inst("C", prio=3, takeover=True)], [
+            {"at": 0, "do": "start", "i": "A"}, {"at": H // 2, "do": "start", "i": "B"},
+            {"when": {"i": "B", "kind": "get", "src": "takeover", "nth": 2, "phase": "post"}, "do": "start", "i": "C",
+             "then": [{"do": "sleep", "us": int(1.6 * H)}]}], "regress", 10 * H + 2 * S, lat=20 * MS, watch=30 * MS,
+            rules=[{"match": {"i": "B", "kind": "update", "src": "takeover"}, "fault": "fail:conflict", "from_nth": 1, "count": 1}]))
         # 2. restart with a round of the previous run still in flight
         out.append(scn("reg-restart-stale-round-%d" % k, seed * 1000 + k, H, ratio, [inst("A"), inst("B")], [
             {"at": 0, "do": "start", "i": "B"}, {"at": H // 10, "do": "start", "i": "A"},
